@@ -222,6 +222,8 @@ class C04(Prop):
     def run_case(self, case):
         if "hdr" in case:
             return self.run_header(case)
+        if "stream" in case:
+            return self.run_stream(case)
         data, viol_at, built = self.build_stream(case)
         deflate = case["deflate"]
         model = refmodel.interpret(data, {"server_nct": False} if deflate else None)
@@ -266,6 +268,46 @@ class C04(Prop):
                 return failed("pong_for_undelivered_ping",
                               "%d pongs written for %d pings that precede the violation" % (len(pongs), len(pings)),
                               labels, nontrivial)
+        return held(labels, nontrivial)
+
+    # ---- arbitrary frame streams (fuzzing tier) ---------------------------------------
+    def run_stream(self, case):
+        """case = {"stream": hex of the bytes after the handshake reply, "deflate": bool, "seg": seg}:
+        lomond's verdict and events against the reference reading, for any byte string."""
+        data = bytes.fromhex(case["stream"])
+        deflate = bool(case.get("deflate"))
+        model = refmodel.interpret(data, {"server_nct": False} if deflate else None)
+        reply = deflate_reply() if deflate else None
+        scn = build.scenario(
+            [["wait_request"], ["stream", [["reply", reply], ["bytes", data]], case.get("seg", "whole"), 0.0], ["eof", 0.0]],
+            ws_opts={"compress": True} if deflate else None)
+        tr = simnet.run_scenario(scn)
+        labels = {"stream:" + (model.violation or ("unspecified" if model.unspecified else
+                                                   ("incomplete" if model.incomplete else "accepted")))}
+        nontrivial = len(model.frames) >= 2
+        names = tr.names()
+        if tr.hang:
+            return failed("hang", tr.hang, labels, nontrivial)
+        if tr.escaped:
+            return failed("escaped_exception", tr.escaped, labels, nontrivial)
+        if names[-1:] != ["disconnected"]:
+            return failed("no_terminal_event", "events=%s" % names, labels, nontrivial)
+        if model.unspecified:
+            return held(labels, nontrivial)
+        if model.violation:
+            res = check_violation_trace(tr, model, labels, nontrivial)
+            return res if res is not None else held(labels, nontrivial)
+        if model.closed_by_server and "closing" in names:
+            names_cmp = names[:names.index("closing") + 1]
+        else:
+            names_cmp = names
+        got = [e for e in tr.events[:len(names_cmp)] if e["name"] in simnet.MESSAGE_EVENTS]
+        why = compare_events(got, model.events)
+        if why:
+            return failed("delivery_mismatch", why + " | events=%s" % names, labels, nontrivial)
+        if "protocol_error" in names_cmp and not (model.incomplete and model.early):
+            return failed("false_protocol_error", "ProtocolError %r for a stream the reference reading accepts; events %s" % (
+                [e for e in tr.events if e["name"] == "protocol_error"][0].get("error"), names), labels, nontrivial)
         return held(labels, nontrivial)
 
     # ---- exhaustive header enumeration -------------------------------------------
@@ -377,6 +419,12 @@ class C04(Prop):
         if why:
             return failed("delivery_mismatch", why + " | events=%s" % names, labels, nontrivial)
         return held(labels, nontrivial)
+
+    def extra(self, tier, seed, acc):
+        if tier != "thorough":
+            return None
+        from harness import fuzzstage
+        return fuzzstage.run("c04", acc, seed)
 
 
 PROP = C04()
